@@ -734,6 +734,56 @@ theorem every_exchange_verified (c : Env) (hc : c.serverMode = false)
   intro ex _ eff h hact
   exact exchange_completions_verified c ex.1 hc ex.2.2 _ (begin_clientExpect c ex.1 ex.2.1 hc) eff h hact
 
+/-! ## the key reported as the remote server key is the key that was verified — on every exchange -/
+
+/-- after a completed client step the key PUBLISHED as the remote server key is the key whose
+    signature over this exchange's H was verified — whatever key was on record before -/
+theorem published_key_is_verified_key (c : Env) (eff : List Effect) (h : Verified c eff) :
+    ∃ hin K hk sig, eff = [.hashed hin, .setKH K (c.hash hin), .verifyKey hk sig, .activate] ∧
+      c.verify hk (c.hash hin) sig = true ∧ ∀ prev, publishedKey prev eff = some hk := by
+  obtain ⟨hin, K, hk, sig, he, hv⟩ := h
+  refine ⟨hin, K, hk, sig, he, hv, ?_⟩
+  intro prev
+  rw [he]
+  simp [publishedKey]
+
+private theorem publishedKey_append_completed (a : List Effect) (prev : Option Bytes) (x y : Effect) (hk sg : Bytes)
+    (hx : ∀ k s, x ≠ .verifyKey k s) (hy : ∀ k s, y ≠ .verifyKey k s) :
+    publishedKey prev (a ++ [x, y, .verifyKey hk sg, .activate]) = some hk := by
+  induction a generalizing prev with
+  | nil =>
+    cases x <;> cases y <;> simp_all [publishedKey]
+  | cons e r ih =>
+    cases e with
+    | verifyKey k s =>
+      cases r with
+      | nil =>
+        simp only [List.cons_append, List.nil_append]
+        have := ih (some k)
+        simp only [List.nil_append] at this
+        cases x <;> simp_all [publishedKey]
+      | cons e2 r2 =>
+        have := ih (some k)
+        simp only [List.cons_append] at this ⊢
+        simp only [publishedKey]
+        exact this
+    | send _ => simpa [publishedKey] using ih prev
+    | expect _ => simpa [publishedKey] using ih prev
+    | hashed _ => simpa [publishedKey] using ih prev
+    | setKH _ _ => simpa [publishedKey] using ih prev
+    | activate => simpa [publishedKey] using ih prev
+
+/-- over a whole connection: whatever happened before (earlier exchanges with other keys, any
+    traffic), once an exchange completes on the client the published key is THAT exchange's key -/
+theorem published_key_follows_every_exchange (c : Env) (before eff : List Effect) (prev : Option Bytes)
+    (h : Verified c eff) :
+    ∃ hk sig hin, Effect.verifyKey hk sig ∈ eff ∧ c.verify hk (c.hash hin) sig = true ∧
+      publishedKey prev (before ++ eff) = some hk := by
+  obtain ⟨hin, K, hk, sig, he, hv⟩ := h
+  refine ⟨hk, sig, hin, by rw [he]; simp, hv, ?_⟩
+  rw [he]
+  exact publishedKey_append_completed before prev _ _ hk sig (by intro k s h; cases h) (by intro k s h; cases h)
+
 /-! ## the session identifier is the first exchange hash, for any number of exchanges -/
 
 /-- `_set_K_H` never changes a session id that is set -/
